@@ -458,6 +458,13 @@ def _gen_spec(seed):
 
 def gen_spec(seed):
     spec = _gen_spec(seed)
+    # in one run out of eight some caller also drops the context's caches (XmlContext.reset) in the middle of it all
+    r2 = random.Random(seed ^ 0x7E5E7)
+    if r2.random() < 0.125 and spec.get("threads"):
+        t = r2.randrange(len(spec["threads"]))
+        spec["threads"][t].insert(r2.randrange(len(spec["threads"][t]) + 1), "ctx_reset:context")
+        if r2.random() < 0.5:
+            spec["threads"].append(["ctx_reset:context"])
     # the callers of some runs keep one instance of every object they serialize and of every decoded document
     # they pass to DictDecoder (an own stream of choices, so that the rest of the run is what it was before)
     if random.Random(seed ^ 0x5A17).random() < 0.15:
